@@ -76,9 +76,11 @@ fn unb64(s: &str) -> Option<Vec<u8>> {
   Some(out)
 }
 
-/// BBS+ (BLS12381-SHA256) verification by the harness: zkryptium directly.
+/// BBS+ verification by the harness with the ciphersuite the key's own public JWK names (SHA-256 or SHAKE-256):
+/// zkryptium directly.
 fn bbs_verify(public_jwk: &Jwk, messages: &[Vec<u8>], header: &[u8], sig: &[u8]) -> bool {
   use zkryptium::bbsplus::ciphersuites::Bls12381Sha256;
+  use zkryptium::bbsplus::ciphersuites::Bls12381Shake256;
   use zkryptium::bbsplus::keys::BBSplusPublicKey;
   use zkryptium::schemes::algorithms::BBSplus;
   use zkryptium::schemes::generics::Signature;
@@ -89,8 +91,24 @@ fn bbs_verify(public_jwk: &Jwk, messages: &[Vec<u8>], header: &[u8], sig: &[u8])
   let (Some(x), Some(y)) = (coord("x"), coord("y")) else { return false };
   let Ok(pk) = BBSplusPublicKey::from_coordinates(&x, &y) else { return false };
   let Ok(sig80) = <[u8; 80]>::try_from(sig) else { return false };
+  if v.get("alg").and_then(|a| a.as_str()) == Some(ProofAlgorithm::BLS12381_SHAKE256.to_string().as_str()) {
+    let Ok(signature) = Signature::<BBSplus<Bls12381Shake256>>::from_bytes(&sig80) else { return false };
+    return signature.verify(&pk, Some(messages), Some(header)).is_ok();
+  }
   let Ok(signature) = Signature::<BBSplus<Bls12381Sha256>>::from_bytes(&sig80) else { return false };
   signature.verify(&pk, Some(messages), Some(header)).is_ok()
+}
+
+/// `jwk` with `alg` naming the BBS+ ciphersuite it does NOT name.
+fn other_suite_twin(jwk: &Jwk) -> Jwk {
+  let mut v = serde_json::to_value(jwk).unwrap_or_default();
+  let other = if v.get("alg").and_then(|a| a.as_str()) == Some(ProofAlgorithm::BLS12381_SHAKE256.to_string().as_str()) {
+    ProofAlgorithm::BLS12381_SHA256
+  } else {
+    ProofAlgorithm::BLS12381_SHAKE256
+  };
+  v["alg"] = other.to_string().into();
+  serde_json::from_value(v).unwrap_or_else(|_| jwk.clone())
 }
 
 /// Ed25519 verification by the harness (iota-crypto directly), next to the library's verifier.
@@ -372,21 +390,29 @@ async fn history(storage: &StrongholdStorage, t: &mut Tape) -> Outcome {
         let own_is_bls = own.as_ref().map(is_bls).unwrap_or(false);
         let pk = if own_is_bls && !t.chance(1, 3) { own.clone().unwrap() } else { bls[t.choose(bls.len())].1.clone() };
         let pk_is_own = own.as_ref().map(|o| serde_json::to_value(o).ok() == serde_json::to_value(&pk).ok()).unwrap_or(false);
+        // one time in four the key's own public JWK is handed in with `alg` naming the OTHER BBS+ ciphersuite: whatever
+        // is returned for this key id verifies under the key's own public JWK (own suite), or the call is refused
+        let suite_twin = own_is_bls && pk_is_own && t.chance(1, 4);
+        let pk = if suite_twin { other_suite_twin(&pk) } else { pk };
         let messages = vec![format!("m{step}").into_bytes(), b"second".to_vec()];
         let header = b"hdr".to_vec();
         let r = storage.sign_bbs(&KeyId::new(id.clone()), &messages, &header, &pk).await;
         out.trace.push(format!(
           "op{step} sign_bbs({id}{}{}) -> {}",
           if own.is_some() && !own_is_bls { ", key id of an Ed25519 key" } else { "" },
-          if pk_is_own { "" } else { ", public JWK of another key" },
+          if suite_twin { ", own public JWK naming the other ciphersuite" } else if pk_is_own { "" } else { ", public JWK of another key" },
           if r.is_ok() { "Ok" } else { "Err" }
         ));
-        let sha256 = serde_json::to_value(&pk).ok().map(|v| v["alg"] == ProofAlgorithm::BLS12381_SHA256.to_string().as_str()).unwrap_or(false);
         // update_signature (validity timeframe update of a BBS+ signature) for the same key id and public JWK: both
         // messages are replaced. For the key id of an Ed25519 key or an absent key id nothing may be returned; for a
         // BBS+ key id with its own public JWK the updated signature verifies over the new messages under that JWK.
         {
-          let new_messages = vec![format!("n{step}").into_bytes(), b"second'".to_vec()];
+          // (both timeframe messages replaced, or only one of them)
+          let which = t.choose(4);
+          let new_messages = vec![
+            if which != 1 { format!("n{step}").into_bytes() } else { messages[0].clone() },
+            if which != 2 { b"second'".to_vec() } else { messages[1].clone() },
+          ];
           let upd = identity_storage::ProofUpdateCtx {
             old_start_validity_timeframe: messages[0].clone(),
             new_start_validity_timeframe: new_messages[0].clone(),
@@ -409,11 +435,13 @@ async fn history(storage: &StrongholdStorage, t: &mut Tape) -> Outcome {
               (Ok(_), None) => viol(&mut out, "C15.deleted_or_unknown_does_not_sign", "stronghold/update_signature/missing-key-signed", format!("update_signature succeeded for absent key id {id}")),
               (Ok(_), Some(_)) if !own_is_bls => viol(&mut out, "C15.signature_verifies_under_own_key", "stronghold/update_signature/ed25519-key-id-signs-bbs", format!("update_signature returned a BBS+ signature for {id}, the key id of an Ed25519 key")),
               (Ok(updated), Some(own)) => {
-                if r.is_ok() && sha256 && pk_is_own && !bbs_verify(own, &new_messages, &header, &updated) {
+                // (only judged when the signature that was updated is a valid one of this key: made just now with the
+                // key's own JWK)
+                if r.is_ok() && pk_is_own && !suite_twin && !bbs_verify(own, &new_messages, &header, &updated) {
                   viol(&mut out, "C15.signature_verifies_under_own_key", "stronghold/update_signature/does-not-verify", format!("updated BBS+ signature for {id} does not verify over the updated messages under its public JWK"));
                 }
               }
-              (Err(e), Some(_)) if own_is_bls && pk_is_own && r.is_ok() => viol(&mut out, "C15.sign_succeeds", "stronghold/update_signature/refused", format!("update_signature failed for present key {id} with its own public JWK: {e}")),
+              (Err(e), Some(_)) if own_is_bls && pk_is_own && !suite_twin && r.is_ok() => viol(&mut out, "C15.sign_succeeds", "stronghold/update_signature/refused", format!("update_signature failed for present key {id} with its own public JWK: {e}")),
               (Err(_), _) => {}
             }
           }
@@ -422,19 +450,22 @@ async fn history(storage: &StrongholdStorage, t: &mut Tape) -> Outcome {
           (Ok(sig), Some(own)) => {
             if !own_is_bls {
               viol(&mut out, "C15.signature_verifies_under_own_key", "stronghold/sign_bbs/ed25519-key-id-signs-bbs", format!("sign_bbs returned a signature for {id}, the key id of an Ed25519 key"));
-            } else if sha256 && !bbs_verify(&own, &messages, &header, &sig) {
-              viol(&mut out, "C15.signature_verifies_under_own_key", "stronghold/sign_bbs/does-not-verify", format!("BBS+ signature for {id} does not verify under its public JWK"));
+            } else if !bbs_verify(&own, &messages, &header, &sig) {
+              viol(
+                &mut out,
+                "C15.signature_verifies_under_own_key",
+                if suite_twin { "stronghold/sign_bbs/other-ciphersuite-named/does-not-verify-under-own-key" } else { "stronghold/sign_bbs/does-not-verify" },
+                format!("BBS+ signature for {id} does not verify under its public JWK"),
+              );
             }
-            if sha256 {
-              for (o, k) in bls.iter() {
-                if *o != id && bbs_verify(k, &messages, &header, &sig) {
-                  viol(&mut out, "C15.signature_verifies_under_no_other_key", "stronghold/sign_bbs/other-key", format!("verifies under {o}"));
-                }
+            for (o, k) in bls.iter() {
+              if *o != id && bbs_verify(k, &messages, &header, &sig) {
+                viol(&mut out, "C15.signature_verifies_under_no_other_key", "stronghold/sign_bbs/other-key", format!("verifies under {o}"));
               }
             }
           }
           (Ok(_), None) => viol(&mut out, "C15.deleted_or_unknown_does_not_sign", "stronghold/sign_bbs/missing-key-signed", format!("sign_bbs succeeded for absent key id {id}")),
-          (Err(e), Some(_)) if pk_is_own => viol(&mut out, "C15.sign_succeeds", "stronghold/sign_bbs/refused", format!("sign_bbs failed for present key {id} with its own public JWK: {e}")),
+          (Err(e), Some(_)) if pk_is_own && !suite_twin => viol(&mut out, "C15.sign_succeeds", "stronghold/sign_bbs/refused", format!("sign_bbs failed for present key {id} with its own public JWK: {e}")),
           (Err(_), _) => {}
         }
       }
